@@ -59,6 +59,13 @@ def field_routes():
                   tmpl % ("qubit fresh; measure fresh; h(a); echo(\"ok\");", route), "runs:ok\n"))
         R.append(("temporary's %s: measured, reset, then a gate" % route,
                   tmpl % ("measure a; qubit fresh; reset a; x(a); echo(\"ok\");", route), "runs:ok\n"))
+    # the inherited qubit field named as super.q (the analyser accepts it)
+    sup = ("class A { public qubit q; public constructor() -> A { } }\nclass D extends A { public constructor() -> D { super(); }\n"
+           "  public function go() -> void { %s } }\nfunction main() -> void { D d = new D(); d.go(); }")
+    R.append(("super.q, never measured: accepts a gate and a measurement", sup % "x(super.q); bit b = measure super.q; echo(b);", "runs:1\n"))
+    R.append(("super.q measured, then a gate through this.q", sup % "measure super.q; x(this.q); echo(\"gated\");", "refused"))
+    R.append(("q measured, then a gate through super.q", sup % "measure q; x(super.q); echo(\"gated\");", "refused"))
+    R.append(("super.q measured, reset, then a gate", sup % "measure super.q; reset super.q; x(super.q); echo(\"ok\");", "runs:ok\n"))
     # a measurement written once inside an array literal in expression position happens once
     lit = "function show(bit[] b) -> void { echo(b[0]); }\nfunction main() -> void { qubit q; x(q); %s }"
     R.append(("measure as the first element of an array-literal argument", lit % "show({measure q});", "runs:1\n"))
